@@ -39,11 +39,62 @@ def main(argv=None):
     scratch = tempfile.mkdtemp(prefix='vf_%s_' % pid)
     tempfile.tempdir = scratch
     os.environ['TMPDIR'] = scratch
+    if not args.replay:
+        _arm_wall_limit(core, pid, tier, seed, scratch)
     try:
         return _run(args, core, pid, tier, seed)
     finally:
         tempfile.tempdir = None
         shutil.rmtree(scratch, ignore_errors=True)
+
+
+def _arm_wall_limit(core, pid, tier, seed, scratch):
+    """Last resort against a tree on which the code under test never returns (a busy loop without a scheduling point, a
+    real thread blocked for good in a part that is not run under the controlled scheduler): after VF_WALL_LIMIT seconds
+    (default 3 h quick / 14 h thorough - more than ten times what the slowest check needs on this tree) the run ends with a
+    VIOLATION 'hang:no_verdict_within_wall_limit' instead of never ending."""
+    import shutil
+    import threading
+    import time
+    limit = float(os.environ.get('VF_WALL_LIMIT', '0') or 0) or (3 * 3600.0 if tier == 'quick' else 14 * 3600.0)
+    main_pid = os.getpid()
+
+    def fire():
+        time.sleep(limit)
+        if os.getpid() != main_pid:
+            return
+        import faulthandler
+        faulthandler.dump_traceback(file=sys.stderr, all_threads=True)
+        def no_fork():
+            raise OSError('the run is over')
+        os.fork = no_fork                       # worker pools must not replace the workers killed below
+
+        def kill_children():
+            for d in os.listdir('/proc'):
+                if d.isdigit():
+                    try:
+                        with open('/proc/%s/stat' % d) as f:
+                            ppid = int(f.read().rsplit(')', 1)[1].split()[1])
+                        if ppid == main_pid:
+                            os.kill(int(d), 9)
+                    except (OSError, ValueError, IndexError):
+                        pass
+        kill_children()
+        try:
+            mod = importlib.import_module('vf.checks.' + pid.lower())
+            ck = core.Check(pid, mod.LEVEL, tier, seed)
+            ck.rule = 'run cut by the wall limit; nothing is claimed about coverage'
+            ck.cap('wall_limit_%ds' % limit)
+            ck.case(key=('wall_limit',), outcome=('hang',))
+            ck.violation('hang:no_verdict_within_wall_limit', 'the check did not finish within %.0f s of real time: code under '
+                         'test does not return (thread stacks are on stderr)' % limit, {'part': 'wall_limit'})
+            core.finish(ck)
+        finally:
+            kill_children()
+            shutil.rmtree(scratch, ignore_errors=True)
+            sys.stdout.flush()
+            os._exit(1)
+    threading.Thread(target=fire, daemon=True, name='vf-wall-limit').start()
 
 
 def _run(args, core, pid, tier, seed):
